@@ -35,11 +35,28 @@ CONFIG = {
 }
 
 
+import enum as _enum_mod
+
+
+class _IntE(_enum_mod.IntEnum):
+    SEVEN = 7
+
+
+class _Port(int):
+    pass
+
+
+class _Tagged(str):
+    pass
+
+
 def value_pool(ns, P):
     C = ns[f"{P}Color"]
     n0, n1, fz, l0 = ns[f"{P}N0"](v=1), ns[f"{P}N1"](v=2, w="w"), ns[f"{P}Fz"](v=3), ns[f"{P}L0"](v=4)
     # values equal to literal members but built at run time (other objects than the constants in the annotation)
     built = ["".join(["alpha", "-", "beta"]), int("65536"), "".join(["alpha", "-", "bet"]), int("65537")]
+    # instances of subclasses of int / str (an IntEnum member, a user's own int and str subclasses): they are ints / strs
+    built += [_IntE.SEVEN, _Port(8080), _Tagged("sub")]
     base = [True, False, 0, 1, 2, 1.5, "", "x", "a", None, C.RED, C.GREEN, n0, n1, fz, l0] + built
     pool = list(base)
     pool.append(())
